@@ -190,3 +190,263 @@ Proof.
     { apply existsb_exists. exists (inspect_check k). split; [apply in_map; exact Hk|exact K3]. }
     rewrite E. reflexivity.
 Qed.
+
+(** ** foreign keys *)
+Definition insp_fk (f : fkey) : fkey :=
+  mkFk (f_symbol f) (f_cols f) (f_reftable f) (f_refcols f) (action (f_onupdate f)) (action (f_ondelete f)).
+
+Definition shape_eqb (f g : fkey) : bool :=
+  strs_eqb (f_cols f) (f_cols g) && str_eqb (f_reftable f) (f_reftable g) && strs_eqb (f_refcols f) (f_refcols g).
+
+(** the state of [fillConstName]: every key of the list with the symbol it carries so far *)
+Definition ent (e : fkey * str) : fkey := set_f_symbol (insp_fk (fst e)) (snd e).
+
+Fixpoint mark (d : fkey) (st : list (fkey * str)) : list (fkey * str) :=
+  match st with
+  | [] => []
+  | (f, s) :: st' => if shape_eqb f d then (f, f_symbol d) :: st' else (f, s) :: mark d st'
+  end.
+
+Lemma name_first_ent d st : name_first (map ent st) d = map ent (mark d st).
+Proof.
+  induction st as [|[f s] st IH]; simpl; [reflexivity|].
+  unfold match_fk. cbn [ent fst snd set_f_symbol insp_fk f_cols f_reftable f_refcols].
+  change (strs_eqb (f_cols f) (f_cols d) && str_eqb (f_reftable f) (f_reftable d) && strs_eqb (f_refcols f) (f_refcols d))
+    with (shape_eqb f d).
+  destruct (shape_eqb f d); simpl; [reflexivity|]. rewrite IH. reflexivity.
+Qed.
+
+Lemma mark_fst d st : map fst (mark d st) = map fst st.
+Proof.
+  induction st as [|[f s] st IH]; simpl; [reflexivity|]. destruct (shape_eqb f d); simpl; [reflexivity|]. rewrite IH. reflexivity.
+Qed.
+
+Fixpoint numbered (l : list fkey) (k : N) : list (fkey * str) :=
+  match l with [] => [] | f :: l' => (f, itoa k) :: numbered l' (k + 1) end.
+
+Lemma fk_ids_numbered l k : fk_ids l k = map ent (numbered l k).
+Proof. revert k. induction l as [|f l IH]; intros k; simpl; [reflexivity|]. rewrite IH. reflexivity. Qed.
+
+Lemma numbered_fst l k : map fst (numbered l k) = l.
+Proof. revert k. induction l as [|f l IH]; intros k; simpl; [reflexivity|]. rewrite IH. reflexivity. Qed.
+
+Definition shape_inj (l : list fkey) : Prop := forall f g, In f l -> In g l -> shape_eqb f g = true -> f = g.
+
+(** after all named declarations have been matched, every key carries its own symbol *)
+Lemma marks_final decls : forall st,
+  (forall d, In d decls -> f_symbol d <> []) ->
+  NoDup (map fst st) -> shape_inj (map fst st) -> NoDup decls ->
+  (forall d, In d decls -> In d (map fst st)) ->
+  (forall e, In e st -> snd e = f_symbol (fst e) \/ In (fst e) decls) ->
+  fold_left (fun l decl => match f_symbol decl with [] => l | _ => name_first l decl end) decls (map ent st)
+  = map (fun f => insp_fk f) (map fst st).
+Proof.
+  induction decls as [|d decls IH]; intros st HN ND SI NDD HIN HINV.
+  - simpl. rewrite map_map. apply map_ext_in. intros [f s] He. destruct (HINV _ He) as [E|[]]. simpl in E.
+    unfold ent. simpl. rewrite E. destruct f; reflexivity.
+  - cbn [fold_left]. destruct (f_symbol d) as [|c0 cs] eqn:ES; [exfalso; apply (HN d (or_introl eq_refl)); exact ES|].
+    rewrite name_first_ent. rewrite <- (mark_fst d st).
+    inversion NDD as [|x xs Hx Hxs]; subst.
+    apply IH.
+    + intros d' Hd'. apply HN. right. exact Hd'.
+    + rewrite mark_fst. exact ND.
+    + rewrite mark_fst. exact SI.
+    + exact Hxs.
+    + intros d' Hd'. rewrite mark_fst. apply HIN. right. exact Hd'.
+    + (* the invariant *)
+      assert (Hd : In d (map fst st)) by (apply HIN; left; reflexivity).
+      clear IH. revert ND SI Hd HINV. clear -Hx ES. induction st as [|[f s] st IHs]; intros ND SI Hd HINV e He; [destruct He|].
+      simpl in He. destruct (shape_eqb f d) eqn:SH.
+      * assert (f = d) by (apply SI; [left; reflexivity|exact Hd|exact SH]). subst f.
+        destruct He as [<-|He].
+        -- left. reflexivity.
+        -- destruct (HINV e (or_intror He)) as [E|[E|E]]; [left; exact E| |right; exact E].
+           exfalso. simpl in ND. inversion ND as [|y ys Hy Hys]. apply Hy. rewrite E. apply in_map. exact He.
+      * destruct He as [<-|He].
+        -- destruct (HINV (f, s) (or_introl eq_refl)) as [E|[E|E]]; [left; exact E| |right; exact E].
+           simpl in E. subst f. exfalso.
+           assert (X : shape_eqb d d = true).
+           { unfold shape_eqb. rewrite str_eqb_refl. assert (R : forall l, strs_eqb l l = true) by (induction l; simpl; [reflexivity|rewrite str_eqb_refl; assumption]).
+             rewrite !R. reflexivity. }
+           congruence.
+        -- simpl in ND. inversion ND as [|y ys Hy Hys]. apply (IHs Hys).
+           ++ intros a b Ha Hb. apply SI; right; assumption.
+           ++ simpl in Hd. destruct Hd as [Hd|Hd]; [|exact Hd]. subst f. exfalso.
+              assert (X : shape_eqb d d = true).
+              { unfold shape_eqb. rewrite str_eqb_refl. assert (R : forall l, strs_eqb l l = true) by (induction l; simpl; [reflexivity|rewrite str_eqb_refl; assumption]).
+                rewrite !R. reflexivity. }
+              congruence.
+           ++ intros e' He'. apply HINV. right. exact He'.
+           ++ exact He.
+Qed.
+
+Fixpoint no_same_shape (l : list fkey) : bool :=
+  match l with
+  | [] => true
+  | f :: l' => forallb (fun g => negb (shape_eqb f g) && negb (shape_eqb g f)) l' && no_same_shape l'
+  end.
+
+Lemma no_same_shape_inj l : no_same_shape l = true -> shape_inj l.
+Proof.
+  induction l as [|a l IH]; intros H f g Hf Hg E; [destruct Hf|].
+  simpl in H. apply andb_true_iff in H. destruct H as [H1 H2].
+  destruct Hf as [<-|Hf], Hg as [<-|Hg].
+  - reflexivity.
+  - assert (X := proj1 (forallb_forall _ _) H1 g Hg). cbv beta in X. rewrite E in X. discriminate.
+  - assert (X := proj1 (forallb_forall _ _) H1 f Hf). cbv beta in X. rewrite E, andb_false_r in X. discriminate.
+  - apply IH; assumption.
+Qed.
+
+(** named, distinct names that are not numbers, distinct shapes *)
+Definition fks_syntactic (fks : list fkey) : bool :=
+  forallb (fun f => negb (str_eqb (f_symbol f) []) && negb (is_uint (f_symbol f))) fks
+  && nodup_strs (map f_symbol fks) && no_same_shape fks.
+
+Lemma NoDup_of_map {A B} (f : A -> B) l : NoDup (map f l) -> NoDup l.
+Proof.
+  induction l as [|a l IH]; simpl; intros H; [constructor|]. inversion H; subst. constructor; [|apply IH; assumption].
+  intros X. apply H2. apply in_map. exact X.
+Qed.
+
+Lemma inspect_fks_char (t : table) :
+  fks_syntactic (t_fks t) = true -> inspect_fks t = map insp_fk (rev (t_fks t)).
+Proof.
+  unfold fks_syntactic. intros H. apply andb_true_iff in H. destruct H as [H H3]. apply andb_true_iff in H. destruct H as [H1 H2].
+  assert (NDS : NoDup (map f_symbol (t_fks t))) by (apply nodup_strs_NoDup; exact H2).
+  assert (ND : NoDup (t_fks t)) by (eapply NoDup_of_map; eauto).
+  assert (SI := no_same_shape_inj _ H3).
+  unfold inspect_fks. rewrite fk_ids_numbered.
+  rewrite (marks_final (t_fks t) (numbered (rev (t_fks t)) 0)).
+  - rewrite numbered_fst. reflexivity.
+  - intros d Hd E. assert (X := proj1 (forallb_forall _ _) H1 d Hd). cbv beta in X. rewrite E in X. discriminate.
+  - rewrite numbered_fst. apply NoDup_rev. exact ND.
+  - rewrite numbered_fst. intros f g Hf Hg. apply SI; apply in_rev; assumption.
+  - exact ND.
+  - intros d Hd. rewrite numbered_fst. apply in_rev. rewrite rev_involutive. exact Hd.
+  - intros e He. right. apply in_rev. rewrite <- (numbered_fst (rev (t_fks t)) 0). apply in_map. exact He.
+Qed.
+
+Lemma names_differ_false_eq a b : length a = length b -> names_differ a b = false -> strs_eqb a b = true.
+Proof.
+  revert b. induction a as [|x a IH]; intros [|y b] HL H; simpl in *; try reflexivity; try discriminate.
+  apply orb_false_iff in H. destruct H as [H1 H2]. apply negb_false_iff in H1. rewrite H1. apply IH; [congruence|exact H2].
+Qed.
+
+Lemma reference_changed_action a : sqlite_reference_changed (action a) a = false.
+Proof. destruct a as [|c r]; unfold action, sqlite_reference_changed; [reflexivity|]. rewrite str_eqb_refl. reflexivity. Qed.
+
+Lemma fk_change_insp f : fk_change sqlite_driver (insp_fk f) f = 0%N.
+Proof.
+  unfold fk_change. cbn [insp_fk f_reftable f_refcols f_cols f_onupdate f_ondelete dd_reference_changed dd_fk_attr_changed sqlite_driver].
+  rewrite str_eqb_refl, !Nat.eqb_refl, !names_differ_refl, !reference_changed_action. reflexivity.
+Qed.
+
+Lemma fk_round_trip (t : table) :
+  fks_syntactic (t_fks t) = true -> fk_part (t_name t) (inspect_fks t) (t_fks t) = [].
+Proof.
+  intros H. rewrite (inspect_fks_char t H).
+  unfold fks_syntactic in H. apply andb_true_iff in H. destruct H as [H H3]. apply andb_true_iff in H. destruct H as [H1 H2].
+  assert (NDS : NoDup (map f_symbol (t_fks t))) by (apply nodup_strs_NoDup; exact H2).
+  assert (SI := no_same_shape_inj _ H3).
+  set (fks := t_fks t) in *. set (afks := map insp_fk (rev fks)).
+  assert (ST : fk_stable (t_name t) (t_name t) afks fks).
+  { intros fk1 fk2 Hf1 Hf2 SF. unfold afks in Hf1. apply in_map_iff in Hf1. destruct Hf1 as [f [E Hf]]. subst fk1.
+    apply in_rev in Hf. cbn [insp_fk f_symbol].
+    assert (X : shape_eqb f fk2 = true).
+    { unfold same_fk in SF. cbn [insp_fk f_reftable f_cols f_refcols] in SF.
+      rewrite str_eqb_refl in SF. cbn [negb orb] in SF.
+      destruct (negb (str_eqb (f_reftable f) (f_reftable fk2))) eqn:E1; [discriminate|].
+      destruct (negb (Nat.eqb (length (f_cols f)) (length (f_cols fk2)))) eqn:E2; [discriminate|].
+      destruct (negb (Nat.eqb (length (f_refcols f)) (length (f_refcols fk2)))) eqn:E3; [discriminate|].
+      cbn [orb] in SF. apply andb_true_iff in SF. destruct SF as [S1 S2].
+      apply negb_true_iff in S1, S2. apply negb_false_iff in E1, E2, E3. apply Nat.eqb_eq in E2, E3.
+      unfold shape_eqb. rewrite E1, (names_differ_false_eq _ _ E2 S1), (names_differ_false_eq _ _ E3 S2). reflexivity. }
+    rewrite (SI f fk2 Hf Hf2 X). reflexivity. }
+  unfold fk_part, fk_diff. cbn [t_fks]. rewrite (normalize_fks_stable _ _ _ _ _ ST). rewrite add_or_skip_no_skip.
+  match goal with |- ?X ++ ?Y = [] => assert (EX : X = []); [|assert (EY : Y = []); [|rewrite EX, EY; reflexivity]] end.
+  - apply flat_map_nil_iff. intros fk1 Hf1. unfold afks in Hf1. apply in_map_iff in Hf1. destruct Hf1 as [f [E Hf]]. subst fk1.
+    apply in_rev in Hf. cbn [insp_fk f_symbol].
+    change (find_fk (f_symbol f) fks) with (kfind f_symbol (f_symbol f) fks).
+    rewrite (kfind_nodup f_symbol fks f NDS Hf). fold (insp_fk f). rewrite fk_change_insp. reflexivity.
+  - apply flat_map_nil_iff. intros f Hf.
+    assert (X : kfind f_symbol (f_symbol (insp_fk f)) afks <> None).
+    { apply (kfind_in_some f_symbol). unfold afks. apply in_map. apply in_rev. rewrite rev_involutive. exact Hf. }
+    cbn [insp_fk f_symbol] in X. unfold find_fk. unfold kfind in X.
+    destruct (find (fun f0 => str_eqb (f_symbol f0) (f_symbol f)) afks); [reflexivity|congruence].
+Qed.
+
+(** ** a desired table, syntactically *)
+Lemma table_checks_pk x pk : table_checks x [] = Ok pk -> effective_pk x = Ok pk.
+Proof.
+  unfold table_checks. destruct (t_idx (x_t x)); [|discriminate].
+  destruct (negb (nodup_strs _)); [discriminate|]. destruct (negb (existsb _ _)); [discriminate|].
+  destruct (first_err (column_def_ok (x_t x)) _); [|discriminate].
+  destruct (effective_pk x) as [p|]; [|discriminate].
+  match goal with |- (match ?X with _ => _ end) = _ -> _ => destruct X; [|discriminate] end.
+  destruct (first_err (fk_def_ok (x_t x)) _); [|discriminate]. destruct (first_err check_def_ok _); [|discriminate].
+  simpl. intros H. inversion H. reflexivity.
+Qed.
+
+(** the feature list of one desired table:
+    - CREATE TABLE accepts it ([new_ctable]: distinct column names, a stored column, printable types and
+      defaults, STRICT types, generated columns without DEFAULT, key over existing stored columns, ...);
+    - its primary key is the one CREATE TABLE declares, over columns, ascending, in column order;
+    - every column's default / generated expression and every index survive print + inspect
+      ([colchg], [index_change]: closed computations on the column / index alone);
+    - indexes: distinct names, none named like an autoindex, definitions accepted by CREATE INDEX;
+    - checks: each equal to its wrapped form up to MayWrap, no two matching each other;
+    - foreign keys: named, distinct non-numeric names, distinct shapes. *)
+(** the primary key CREATE TABLE declares is the desired one: no AUTOINCREMENT column, or the key is that column *)
+Definition pk_decl_b (bx : xtable) : bool :=
+  match filter (fun c => has_autoinc bx (c_name c)) (t_cols (x_t bx)) with
+  | [] => true
+  | _ => match t_pk (x_t bx) with Some pk => autoincPK bx pk | None => false end
+  end.
+
+Lemma effective_pk_decl bx pk' : pk_decl_b bx = true -> effective_pk (strip_idx bx) = Ok pk' -> pk' = t_pk (x_t bx).
+Proof.
+  unfold pk_decl_b, effective_pk. intros H E.
+  change (has_autoinc (strip_idx bx)) with (has_autoinc bx) in E.
+  change (t_cols (x_t (strip_idx bx))) with (t_cols (x_t bx)) in E.
+  change (t_pk (x_t (strip_idx bx))) with (t_pk (x_t bx)) in E.
+  change (t_without_rowid (x_t (strip_idx bx))) with (t_without_rowid (x_t bx)) in E.
+  destruct (filter (fun c => has_autoinc bx (c_name c)) (t_cols (x_t bx))) as [|c [|c2 l]].
+  - inversion E. reflexivity.
+  - destruct (t_without_rowid (x_t bx) || negb (str_eqb (to_upper (c_T c)) T_INTEGER)); [discriminate|].
+    destruct (t_pk (x_t bx)) as [pk|]; [|discriminate].
+    change (autoincPK (strip_idx bx) pk) with (autoincPK bx pk) in E. rewrite H in E. inversion E. reflexivity.
+  - discriminate.
+Qed.
+
+Definition desired_syntactic_b (bx : xtable) : bool :=
+  let b := x_t bx in
+  match new_ctable (strip_idx bx) [] with
+  | Ok ct0 =>
+      forallb (column_ok bx) (t_cols b)
+      && forallb (fun i => match has_prefix SQLITE_AUTOINDEX (i_name i) with None => true | Some _ => false end) (t_idx b)
+      && nodup_strs (map i_name (t_idx b))
+      && forallb (fun i => match index_def_ok b i with Ok _ => true | Err _ => false end) (t_idx b)
+      && checks_syntactic (t_checks b)
+      && forallb (fun cb => match colchg (inspect_column cb) cb with Some 0%N => true | _ => false end) (t_cols b)
+      && (pk_decl_b bx && pk_syntactic (t_cols b) (t_pk b))
+      && forallb (fun ib => N.eqb (index_change sqlite_driver (inspect_index ib) ib) 0) (t_idx b)
+      && fks_syntactic (t_fks b)
+  | Err _ => false
+  end.
+
+Theorem desired_ok_syntactic bx : desired_syntactic_b bx = true -> desired_ok bx.
+Proof.
+  intros H. apply desired_ok_by_parts. unfold desired_syntactic_b in H. unfold desired_parts_b.
+  destruct (new_ctable (strip_idx bx) []) as [ct0|] eqn:HC; [|discriminate].
+  destruct (new_ctable_shape _ _ HC) as [pk' [EP [E0 ER]]].
+  repeat (apply andb_true_iff in H; destruct H as [H ?]).
+  match goal with X : pk_decl_b bx && pk_syntactic _ _ = true |- _ => apply andb_true_iff in X; destruct X as [PD PS] end.
+  assert (EPK : pk' = t_pk (x_t bx)) by (apply (effective_pk_decl bx pk' PD); apply table_checks_pk; exact EP).
+  repeat (apply andb_true_iff; split); try assumption.
+  - rewrite checks_round_trip; [reflexivity|assumption].
+  - rewrite E0. cbn [ct_t entry_of ct_x x_t set_x_t strip_idx].
+    rewrite (pk_round_trip _ (t_pk (x_t bx))); [reflexivity| |].
+    + cbn [t_pk]. exact EPK.
+    + cbn [t_cols set_t_idx]. exact PS.
+  - rewrite fk_round_trip; [reflexivity|assumption].
+Qed.
